@@ -162,6 +162,22 @@ def draw_system(rng, seed: int, prop: str, *, families=("single",) * 6 + ("cross
         fits["F2"] = {"X": "X2", "Y": "Y2"}
         new = {"F0": [["NX0", "NY0"]], "F1": [["NX0", "NY0"]], "F2": [["NX2", "NY2"]]}
         bad = {"F0": [["NX2", "NY2"]], "F1": [["NX2", "NY2"]], "F2": [["NX0", "NY0"]]}
+        if prop == "C14":
+            # a pair of small rank (three features on the X side): a fit that asks for more modes than that fails
+            # (or is clipped) - and must leave nothing behind that a later fit could pick up
+            dx3 = space.draw_layout(rng, **dict(lay, max_features=3, min_features=3, allow_nan=False, containers=("da",)))
+            dy3 = space.paired_layout(rng, dx3, **dict(lay, max_features=6, min_features=3, allow_nan=False, containers=("da",)))
+            if spec.hilbert:
+                for d in (dx3, dy3):
+                    d["sample"] = d["sample"][:1]
+                    d["sample"][0][1] = max(d["sample"][0][1], 18)
+                    d.pop("perm_seed", None)
+                    d.pop("multiindex", None)
+                dy3["sample"] = copy.deepcopy(dx3["sample"])
+            descs["X3"], descs["Y3"] = chunked(dx3), chunked(dy3)
+            fits["F3"] = {"X": "X3", "Y": "Y3"}
+            new["F3"] = []
+            bad["F3"] = [["NX0", "NY0"]]
         sx = min((descs["X0"], descs["X1"], descs["X2"]), key=models._rank)
         sy = min((descs["Y0"], descs["Y1"], descs["Y2"]), key=models._rank)
         params = models.draw_cross_params(rng, spec, sx, sy, lazy=True if lazy else (False if dask_eager else None))
